@@ -373,16 +373,25 @@ Section RelSound.
     - (* callable / callable *)
       destruct (topo_callable _ _ _ _ Hls) as [Hp1 [Hr1 Hc1]].
       destruct (topo_callable _ _ _ _ Hlp) as [Hp2 [Hr2 Hc2]].
-      unfold and_then in H.
-      match type of H with match ?e with _ => _ end = _ => destruct e as [[b1 A1']|] eqn:E1 end; [|discriminate].
-      destruct (HRS _ _ _ _ _ _ _ Hcp2 Hcp1 ltac:(lia) HI' E1) as [HP1 Hs1].
-      destruct b1; [|inversion H; subst; split; [exact HP1|discriminate]].
-      match type of H with match ?e with _ => _ end = _ => destruct e as [[b2 A2']|] eqn:E2 end; [|discriminate].
-      destruct (HRS _ _ _ _ _ _ _ Hcr1 Hcr2 ltac:(lia) (Inv_Post _ _ _ HI' HP1) E2) as [HP2 Hs2].
-      destruct b2; [|inversion H; subst; split; [eapply Post_trans; eassumption|discriminate]].
-      destruct (HRS _ _ _ _ _ _ _ Hcc2 Hcc1 ltac:(lia) (Inv_Post _ _ _ (Inv_Post _ _ _ HI' HP1) HP2) H) as [HP3 Hs3].
-      split; [eapply Post_trans; [eapply Post_trans|]; eassumption|intros Hb].
-      eapply sub_callable; [exact Hls|exact Hlp|apply Hs1; reflexivity|apply Hs2; reflexivity|apply Hs3; exact Hb].
+      (* the three component checks from any start set A0 that satisfies the invariant *)
+      assert (Hbody : forall A0 css cps ss1 ps1 b0 A2, Inv A0 (s + p) ->
+                and_then (check_rel cfg P All f A0 css cps p2 p1) (fun A1 =>
+                and_then (check_rel cfg P All f A1 ss1 ps1 r1 r2) (fun A2 =>
+                check_rel cfg P All f A2 css cps c2 c1)) = Some (b0, A2) ->
+                Post A0 A2 /\ (b0 = true -> sub s p)).
+      { intros A0 css cps ss1 ps1 b0 A2 HI0 H0. unfold and_then in H0.
+        match type of H0 with match ?e with _ => _ end = _ => destruct e as [[b1 A1']|] eqn:E1 end; [|discriminate].
+        destruct (HRS _ _ _ _ _ _ _ Hcp2 Hcp1 ltac:(lia) HI0 E1) as [HP1 Hs1].
+        destruct b1; [|inversion H0; subst; split; [exact HP1|discriminate]].
+        match type of H0 with match ?e with _ => _ end = _ => destruct e as [[b2 A2']|] eqn:E2 end; [|discriminate].
+        destruct (HRS _ _ _ _ _ _ _ Hcr1 Hcr2 ltac:(lia) (Inv_Post _ _ _ HI0 HP1) E2) as [HP2 Hs2].
+        destruct b2; [|inversion H0; subst; split; [eapply Post_trans; eassumption|discriminate]].
+        destruct (HRS _ _ _ _ _ _ _ Hcc2 Hcc1 ltac:(lia) (Inv_Post _ _ _ (Inv_Post _ _ _ HI0 HP1) HP2) H0) as [HP3 Hs3].
+        split; [eapply Post_trans; [eapply Post_trans|]; eassumption|intros Hb].
+        eapply sub_callable; [exact Hls|exact Hlp|apply Hs1; reflexivity|apply Hs2; reflexivity|apply Hs3; exact Hb]. }
+      destruct (cfg_callable_assume cfg).
+      + eapply Hins; [|exact H]. intros b0 A2 Hr. eapply Hbody; [exact HIk|exact Hr].
+      + eapply Hbody; [exact HI'|exact H].
     - (* process / process *)
       destruct (topo_process _ _ _ Hls) as [Hs1' Hr1'].
       destruct (topo_process _ _ _ Hlp) as [Hs2' Hr2'].
